@@ -242,6 +242,12 @@ func (e *kvElection) Start(ctx context.Context) error {
 		if err := e.attemptAcquire(); err != nil {
 			e.recordAcquireAttempt("failed")
 			e.recordFailure(classifyErrorType(err))
+			// Never demote a leader from here: after a stop call that gave up waiting,
+			// an attempt of the previous run can still be in flight and win, and this
+			// attempt then fails against the instance's own record.
+			if e.IsLeader() {
+				return
+			}
 			e.becomeFollower()
 		}
 	}()
